@@ -135,35 +135,85 @@ class SStr:
     # ---- searching / splitting
     def find(self, sub, start=0, end=None):
         sub = citems(sub)
-        n, k = _real_len(self.items), _real_len(sub)
-        end = n if end is None else end
+        k = _real_len(sub)
+        start, end = self._rng(start, end)
         for i in range(start, end - k + 1):
             if _real_bool(V.seq_eq(self.items[i : i + k], sub)):
                 return i
         return -1
 
-    def index(self, sub, start=0):
-        r = self.find(sub, start)
+    def index(self, sub, start=0, end=None):
+        r = self.find(sub, start, end)
         if r < 0:
             raise ValueError("substring not found")
         return r
 
-    def startswith(self, p, start=0):
-        if _real_isinstance(p, tuple):
-            return any(self.startswith(q, start) for q in p)
-        p = citems(p)
-        if start + _real_len(p) > _real_len(self.items):
-            return False
-        return _real_bool(V.seq_eq(self.items[start : start + _real_len(p)], p))
-
-    def endswith(self, p):
-        if _real_isinstance(p, tuple):
-            return any(self.endswith(q) for q in p)
-        p = citems(p)
+    def _rng(self, start, end):
         n = _real_len(self.items)
-        if _real_len(p) > n:
+        a = 0 if start is None else V.conc_index(start)
+        b = n if end is None else V.conc_index(end)
+        if a < 0:
+            a = max(0, a + n)
+        if b < 0:
+            b = max(0, b + n)
+        return a, min(b, n)
+
+    def rfind(self, sub, start=None, end=None):
+        sub = citems(sub)
+        a, b = self._rng(start, end)
+        k = _real_len(sub)
+        for i in range(b - k, a - 1, -1):
+            if _real_bool(V.seq_eq(self.items[i : i + k], sub)):
+                return i
+        return -1
+
+    def rindex(self, sub, start=None, end=None):
+        r = self.rfind(sub, start, end)
+        if r < 0:
+            raise ValueError("substring not found")
+        return r
+
+    def count(self, sub, start=None, end=None):
+        sub = citems(sub)
+        a, b = self._rng(start, end)
+        k = _real_len(sub)
+        if k == 0:
+            return max(0, b - a) + 1
+        n, i = 0, a
+        while i <= b - k:
+            if _real_bool(V.seq_eq(self.items[i : i + k], sub)):
+                n += 1
+                i += k
+            else:
+                i += 1
+        return n
+
+    def _affix(self, p, start, end, at_end):
+        if _real_isinstance(p, tuple):
+            for q in p:
+                if self._affix(q, start, end, at_end):
+                    return True
             return False
-        return _real_bool(V.seq_eq(self.items[n - _real_len(p) :], p))
+        p = citems(p)
+        a, b = self._rng(start, end)
+        items = self.items[a:b] if a <= b else []
+        if _real_len(p) > _real_len(items):
+            return False
+        part = items[_real_len(items) - _real_len(p) :] if at_end else items[: _real_len(p)]
+        return _real_bool(V.seq_eq(part, p))
+
+    def startswith(self, p, start=None, end=None):
+        return self._affix(p, start, end, False)
+
+    def endswith(self, p, start=None, end=None):
+        return self._affix(p, start, end, True)
+
+    def rpartition(self, sep):
+        i = self.rfind(sep)
+        if i < 0:
+            return "", "", self
+        k = _real_len(citems(sep))
+        return mk_str(self.items[:i]), sep, mk_str(self.items[i + k :])
 
     def split(self, sep=None, maxsplit=-1):
         if sep is None:
